@@ -65,6 +65,7 @@ def cases(tier, seed):
     cs.append({'t': 'rebind'})
     cs.append({'t': 'users'})
     cs.append({'t': 'noident'})
+    cs.append({'t': 'reflag'})
     return cs
 
 
@@ -393,6 +394,44 @@ def _users(ctx, d, pgpy):
                 ctx.fail('identity-with-capability-refused', {'user': user})
             else:
                 ctx.count('refusals_expected_and_seen')
+    ctx.nontrivial(d)
+
+
+def _reflag(ctx, d, pgpy):
+    """one key object whose identity is re-certified with changing flags (and whose subkey is re-bound): every operation follows the flags in force *now*"""
+    from pgpy.constants import KeyFlags, SignatureType, CompressionAlgorithm
+    msg = pgpy.PGPMessage.new('reflag', compression=CompressionAlgorithm.Uncompressed)
+    for pn in ('ed25519_0', 'rsa1024_0'):
+        k = pool.pgpy_bare(pn)
+        t0 = datetime(2022, 1, 1, tzinfo=timezone.utc)
+        k.add_uid(pgpy.PGPUID.new('Reflag'), usage={KeyFlags.Certify, KeyFlags.Sign}, created=t0)
+        sk = pool.pgpy_bare('rsa1024_1')
+        k.add_subkey(sk, usage={KeyFlags.Authentication}, created=t0)
+        seq = [(['Certify'], ['Authentication']), (['Certify', 'Sign'], ['Authentication']), (['Certify'], ['Sign']), (['Certify'], ['EncryptCommunications']), (['Certify'], ['Authentication']),
+               (['Sign'], ['EncryptStorage']), (['Certify'], [])]
+        for i, (pf, sf) in enumerate(seq):
+            u = k.userids[0]
+            u |= k.certify(u, SignatureType.Positive_Cert, usage={getattr(KeyFlags, f) for f in pf}, created=t0 + timedelta(days=i + 1))
+            sk |= k.bind(sk, usage={getattr(KeyFlags, f) for f in sf}, created=t0 + timedelta(days=i + 1))
+            for rep in range(2):
+                for op in ('sign', 'encrypt'):
+                    ctx.count('cells')
+                    ctx.count('evaluations')
+                    actor = k.pubkey if op == 'encrypt' else k
+                    allowed, must_refuse = allowed_components(actor, op)
+                    if op == 'encrypt' and pn == 'ed25519_0':
+                        allowed = [a for a in allowed if a is not actor]
+                        must_refuse = not allowed
+                    res = do_op(pgpy, actor, op, None, msg, None)
+                    where = {'primary': pn, 'step': i, 'primary_flags': pf, 'subkey_flags': sf, 'op': op, 'repeat': rep}
+                    if must_refuse and res[0] != 'refused':
+                        ctx.fail('capability-survives-its-withdrawal', dict(where, result=res[0]))
+                    elif not must_refuse and res[0] == 'refused':
+                        ctx.fail('capability-granted-by-current-self-signature-ignored', dict(where, err=repr(res[1])[:160]))
+                    elif res[0] == 'refused':
+                        ctx.count('refusals_expected_and_seen')
+                    elif res[0] == 'sig':
+                        check_sig_names_user(ctx, res[1], res[2], allowed, where)
     ctx.nontrivial(d)
 
 
